@@ -8,7 +8,9 @@ amplitudes c = sqrt(1-loss), s = sqrt(loss) as exact rationals, builds the enlar
 model of `_simulate_losses_with_beam_splitters` and through the direct specification (two-mode block on
 (mode, fresh mode)) —, checks they are equal, evaluates the exact Fock-space distribution and marginalises.
 `DensityMatrix.apply_loss` is compared on the diagonal with the model of the Kraus weights and with the LC
-simulation of the same loss.  Sessions keep ONE Processor / simulator alive over several queries while loss and
+simulation of the same loss, and as a whole complex matrix with the model of the Kraus map.  The amplitude-level
+paths `LossSimulator.evolve` (`_postprocess_sv_impl`) and `LC.apply`, and a noisy source in front of loss channels,
+are compared with `Model/C07SV.lean` (formal amplitudes a*sqrt(q)).  Sessions keep ONE Processor / simulator alive over several queries while loss and
 phase Parameters, the component list, the filter and the input change in between: every answer must be the one
 for the values at the time of the query (Lean: `session_history_independent`).  A direct oracle independent of Lean (numpy permanents of the enlarged lossless
 circuit) classifies disagreements.
@@ -932,6 +934,538 @@ def handle_session(chk, sess):
 
 
 # ------------------------------------------------------------------------------------------------
+# amplitude-level paths.  The model carries an amplitude formally as (a, q) = a * sqrt(q), a in Q[i], q in Q>=0
+# (Fock amplitudes carry 1/sqrt(prod s! prod t!), Kraus entries sqrt(binomial weight)); the value of an entry is
+# the sum of its contributions.  The floating-point square root is taken here, once, on exact radicands.
+# ------------------------------------------------------------------------------------------------
+def contrib_value(a, q):
+    return complex(float(Fraction(a[0])), float(Fraction(a[1]))) * math.sqrt(float(Fraction(q)))
+
+
+def collect(contribs, key=lambda k: tuple(k)):
+    out = {}
+    for k, a, q in contribs:
+        kk = key(k)
+        out[kk] = out.get(kk, 0j) + contrib_value(a, q)
+    return out
+
+
+def merge_contribs(contribs):
+    """a*sqrt(q) + b*sqrt(q) = (a+b)*sqrt(q): keeps a chain of model steps small (exact)"""
+    acc = {}
+    for k, a, q in contribs:
+        kk = (json.dumps(k), q)
+        re, im = acc.get(kk, (Fraction(0), Fraction(0)))
+        acc[kk] = (re + Fraction(a[0]), im + Fraction(a[1]))
+    return [[json.loads(k), [core.rat(re), core.rat(im)], q] for (k, q), (re, im) in acc.items() if re or im]
+
+
+def normalised(vec):
+    n2 = sum(abs(v) ** 2 for v in vec.values())
+    if n2 < 1e-18:
+        return None
+    n = math.sqrt(n2)
+    return {k: v / n for k, v in vec.items()}
+
+
+def vec_diff(real, want, tol=TOL):
+    worst = 0.0
+    for k in set(real) | set(want):
+        d = abs(real.get(k, 0j) - want.get(k, 0j))
+        if d > tol + tol * abs(want.get(k, 0j)):
+            worst = max(worst, d)
+    return worst
+
+
+COEFS = [["1", "0"], ["1", "0"], ["0", "1"], ["-1", "0"], ["2", "0"], ["1", "1"], ["1/2", "0"], ["0", "-3/2"]]
+
+
+def coef_complex(a):
+    return complex(float(Fraction(a[0])), float(Fraction(a[1])))
+
+
+def gen_superposition(rng, mm, max_n=3, max_terms=2):
+    terms = []
+    for _ in range(rng.randint(1, max_terms)):
+        st = [0] * mm
+        for _ in range(rng.choice([0, 1, 1, 2, 2, 3]) if max_n >= 3 else rng.randint(0, max_n)):
+            st[rng.randrange(mm)] += 1
+        if all(st != t[0] for t in terms):
+            terms.append([st, rng.choice(COEFS)])
+    if len(terms) == 1:
+        terms[0][1] = ["1", "0"]
+    return terms
+
+
+# ------------------------------------------------------------------------------------------------
+# LossSimulator.evolve / _postprocess_sv_impl
+# ------------------------------------------------------------------------------------------------
+def gen_evolve_case(rng, chk):
+    prog = gen_program(rng, chk, max_m=3, max_lc=3, max_n=3)
+    prog["mode"] = "list"
+    prog["filter"] = 0
+    if rng.random() < 0.4:          # a single channel: one loss pattern per reduced state
+        seen = False
+        keep = []
+        for r0, c in prog["comps"]:
+            if c["t"] == "LC":
+                if seen:
+                    continue
+                seen = True
+            keep.append([r0, c])
+        prog["comps"] = keep
+    mm = comps_M(prog["comps"])
+    prog["svs"] = [gen_superposition(rng, mm) for _ in range(rng.randint(1, 2))]
+    prog["inputs"] = []
+    return prog
+
+
+def to_statevector(terms):
+    import perceval as pcvl
+    if len(terms) == 1 and terms[0][1] == ["1", "0"]:
+        return pcvl.BasicState(terms[0][0])
+    sv = pcvl.StateVector()
+    for st, a in terms:
+        sv += pcvl.StateVector(pcvl.BasicState(st)) * coef_complex(a)
+    return sv
+
+
+def sv_to_dict(sv):
+    return {tuple(int(x) for x in st): complex(a) for st, a in sv}
+
+
+def observe_evolve(case):
+    import perceval as pcvl
+    from perceval.simulators import SimulatorFactory
+    mats = []
+    try:
+        objs = [build_comp(spec) for _, spec in case["comps"]]
+        mats = snapshot_mats(case["comps"], objs)
+        lst = [(tuple(range(r0, r0 + obj.m)), obj) for (r0, spec), obj in zip(case["comps"], objs)]
+        sim = SimulatorFactory.build(lst, case["backend"])
+        sim.set_precision(0)
+        runs = []
+        for terms in case["svs"]:
+            run = {"terms": terms, "evolve": sv_to_dict(sim.evolve(to_statevector(terms)))}
+            if len(terms) == 1:
+                run["probs"] = bsd_to_dict(sim.probs(pcvl.BasicState(terms[0][0])))
+            runs.append(run)
+        return {"runs": runs, "mats": mats, "layer": type(sim).__name__}
+    except Exception as e:
+        if is_repo_error(e):
+            return {"err": type(e).__name__, "msg": str(e)[:200], "mats": mats}
+        raise
+
+
+def oracle_evolve(case, mats, terms):
+    """numpy: state vector of the property's enlarged lossless circuit, truncated, amplitudes of one key added"""
+    u, M, N = oracle_matrix(case, mats)
+    tot = math.sqrt(sum(abs(coef_complex(a)) ** 2 for _, a in terms))
+    out = {}
+    for st, a in terms:
+        sp = list(st) + [0] * (N - M)
+        n = sum(sp)
+        cols = [i for i, c in enumerate(sp) for _ in range(c)]
+        fs = math.prod(math.factorial(x) for x in sp)
+        for t in all_states(N, n):
+            rows = [i for i, c in enumerate(t) for _ in range(c)]
+            amp = perm_np(u[np.ix_(rows, cols)]) if n else 1.0 + 0j
+            amp = amp / math.sqrt(fs * math.prod(math.factorial(x) for x in t)) * coef_complex(a) / tot
+            key = tuple(t[:M])
+            out[key] = out.get(key, 0j) + amp
+    return out
+
+
+def judge_evolve(chk, case):
+    obs = observe_evolve(case)
+    if "err" in obs:
+        return ("violation", "loss-evolve-raises",
+                f"SimulatorFactory.build(list).evolve raised {obs['err']} ({obs.get('msg')})")
+    prog = dict(case, inputs=[])
+    req = lean_request(prog, obs["mats"])
+    req.update({"op": "evolve", "inputs": [[[st, a] for st, a in terms] for terms in case["svs"]]})
+    rep = chk.lean.ask(req)
+    if "err" in rep:
+        return ("violation", "accepts-inadmissible-program", f"evolve accepted a program the model rejects ({rep['err']})")
+    if not all(all(x) for x in rep["sq"]):
+        return ("broken", "evolve-incoherent-vs-probs", "model: squared evolve contributions differ from lossProbs")
+    n_lc = sum(1 for _, c in case["comps"] if c["t"] == "LC")
+    for run, contribs in zip(obs["runs"], rep["svs"]):
+        want = normalised(collect(contribs))
+        if want is None:
+            chk.count("evolve", "degenerate")
+            continue
+        bad = vec_diff(run["evolve"], want)
+        if bad:
+            od = normalised(oracle_evolve(case, obs["mats"], run["terms"]))
+            if od is None or vec_diff(run["evolve"], od, 1e-7):
+                return ("violation", "loss-evolve-differs",
+                        f"LossSimulator.evolve on {run['terms']} differs by {bad:.3g} from the state vector of the "
+                        "enlarged lossless circuit truncated to the original modes")
+            return ("broken", "model-vs-code-evolve", f"Lean model and evolve disagree by {bad:.3g} on {run['terms']} "
+                                                      "but the numpy oracle agrees with the implementation")
+        if n_lc == 1 and "probs" in run:
+            # one channel, Fock input: a single loss pattern behind every reduced state (Lean:
+            # evolve_one_channel_single_pattern) -> |amplitude|^2 is the probability; real code against real code
+            sq = {k: abs(v) ** 2 for k, v in run["evolve"].items()}
+            worst = max((abs(sq.get(k, 0.0) - run["probs"].get(k, 0.0)) for k in set(sq) | set(run["probs"])),
+                        default=0.0)
+            if worst > 1e-9:
+                return ("violation", "loss-evolve-vs-probs",
+                        f"one loss channel, input {run['terms'][0][0]}: |evolve|^2 differs from probs by {worst:.3g}")
+    return None
+
+
+def shrink_evolve(chk, case, sig):
+    def fails(c):
+        try:
+            r = judge_evolve(chk, c)
+        except core.LeanError:
+            raise
+        except Exception:
+            return False
+        return r is not None and r[1] == sig
+
+    cur = copy.deepcopy(case)
+    for terms in list(cur["svs"]):
+        cand = dict(cur, svs=[terms])
+        if fails(cand):
+            cur = cand
+            break
+    mm = comps_M(cur["comps"])
+
+    def f2(cs):
+        return bool(cs) and comps_M(cs) == mm and fails(dict(cur, comps=cs))
+    cur["comps"] = gens.shrink_list(cur["comps"], f2, max_rounds=40)
+    return cur
+
+
+def handle_evolve(chk, case):
+    n_lc = sum(1 for _, c in case["comps"] if c["t"] == "LC")
+    chk.count("evolve_channels", n_lc)
+    chk.branch("evolve-single-pattern" if n_lc == 1 else "evolve-several-patterns")
+    if any(len(t) > 1 for t in case["svs"]):
+        chk.branch("evolve-superposition")
+    res = judge_evolve(chk, case)
+    chk.case(("evolve",) + signature(case) + (json.dumps(case["svs"]),), nontrivial=n_lc >= 1,
+             sample=None)
+    if res is not None:
+        kind, sig, what = res
+        small = shrink_evolve(chk, case, sig)
+        try:
+            again = judge_evolve(chk, small)
+            if again is not None and again[1] == sig:
+                what = again[2]
+        except core.LeanError:
+            raise
+        except Exception:
+            pass
+        chk.fail(kind, sig, what, {"evolve": small})
+
+
+# ------------------------------------------------------------------------------------------------
+# LC.apply (what the Stepper calls for a loss channel).  Run in a child process: on a broken tree this method has
+# been seen to kill the interpreter (numpy handed a FockState), which must be a finding, not the end of the run.
+# ------------------------------------------------------------------------------------------------
+LCAPPLY_WORKER = r"""
+import json, sys
+import perceval as pcvl
+from perceval.components import LC
+try:
+    from perceval.utils.logging import get_logger, channel, level
+    for ch in (channel.user, channel.general, channel.resources):
+        get_logger().set_level(level.off, ch)
+except Exception:
+    pass
+for line in sys.stdin:
+    case = json.loads(line)
+    print(json.dumps({"start": case["id"]}), flush=True)
+    try:
+        terms = case["terms"]
+        if len(terms) == 1 and terms[0][1] == [1.0, 0.0]:
+            sv = pcvl.BasicState(terms[0][0])
+        else:
+            sv = pcvl.StateVector()
+            for st, a in terms:
+                sv += pcvl.StateVector(pcvl.BasicState(st)) * complex(a[0], a[1])
+        for r, loss in case["steps"]:
+            sv = LC(loss).apply((r,), sv)
+        out = [[[int(x) for x in st], complex(a).real, complex(a).imag] for st, a in sv]
+        print(json.dumps({"id": case["id"], "out": out, "m": int(sv.m)}), flush=True)
+    except Exception as e:
+        import traceback
+        tb = traceback.extract_tb(e.__traceback__)
+        print(json.dumps({"id": case["id"], "err": type(e).__name__, "msg": str(e)[:160],
+                          "in_repo": any("perceval" in (fr.filename or "") for fr in tb)}), flush=True)
+"""
+
+
+def run_lcapply_batch(cases):
+    """-> {id: {"out"} | {"err"} | {"crash": returncode}}; a dead worker is restarted for the remaining cases"""
+    import subprocess
+    import sys
+    results = {}
+    todo = list(cases)
+    while todo:
+        payload = "".join(json.dumps({"id": c["id"], "terms": [[st, [coef_complex(a).real, coef_complex(a).imag]]
+                                                                 for st, a in c["terms"]],
+                                      "steps": [[r, float(Fraction(p))] for r, p in c["steps"]]}) + "\n"
+                          for c in todo)
+        try:
+            pr = subprocess.run([sys.executable, "-W", "ignore", "-c", LCAPPLY_WORKER], input=payload, text=True,
+                                capture_output=True, timeout=600)
+            out, rc = pr.stdout, pr.returncode
+        except subprocess.TimeoutExpired as e:
+            out, rc = (e.stdout or ""), "timeout"
+            if isinstance(out, bytes):
+                out = out.decode(errors="replace")
+        started = None
+        for line in out.splitlines():
+            try:
+                msg = json.loads(line)
+            except ValueError:
+                continue
+            if "start" in msg:
+                started = msg["start"]
+            elif "id" in msg:
+                results[msg["id"]] = msg
+                started = None
+        if started is not None:                       # died while working on this case
+            results[started] = {"crash": rc}
+        todo = [c for c in todo if c["id"] not in results]
+        if started is None and todo:                  # died outside a case (import failure, ...)
+            for c in todo:
+                results[c["id"]] = {"crash": rc}
+            todo = []
+    return results
+
+
+def gen_lcapply_case(rng, k):
+    m = rng.randint(1, 3)
+    terms = gen_superposition(rng, m, max_terms=3)
+    steps = []
+    mm = m
+    for _ in range(rng.choice([1, 1, 2])):
+        sp = gen_lc(rng)
+        steps.append([rng.randrange(mm), core.rat(lc_loss(sp))])
+        mm += 1
+    return {"id": k, "m": m, "terms": terms, "steps": steps}
+
+
+def oracle_lcapply(case):
+    """numpy, independent of the binomial formula: each step couples mode r to one more (vacuum) mode with the block
+    [[c, s], [s, -c]], amplitudes from permanents"""
+    tot = math.sqrt(sum(abs(coef_complex(a)) ** 2 for _, a in case["terms"]))
+    vec = {tuple(st): coef_complex(a) / tot for st, a in case["terms"]}
+    for r, p in case["steps"]:
+        loss = float(Fraction(p))
+        c, s = math.sqrt(1 - loss), math.sqrt(loss)
+        blk = np.array([[c, s], [s, -c]], dtype=complex)
+        nxt = {}
+        for st, amp in vec.items():
+            n = st[r]
+            for i in range(n + 1):
+                rows = [0] * i + [1] * (n - i)
+                cols = [0] * n
+                a = perm_np(blk[np.ix_(rows, cols)]) if n else 1.0 + 0j
+                a = a / math.sqrt(math.factorial(n) * math.factorial(i) * math.factorial(n - i))
+                key = st[:r] + (i,) + st[r + 1:] + (n - i,)
+                nxt[key] = nxt.get(key, 0j) + amp * a
+        vec = nxt
+    return {k: v for k, v in vec.items() if abs(v) > 0}
+
+
+def judge_lcapply(chk, case, res):
+    if "crash" in res:
+        return ("violation", "lc-apply-raises",
+                f"LC.apply{tuple(case['steps'][0])} on {case['terms']} killed the interpreter (exit status {res['crash']})")
+    if "err" in res:
+        return ("violation", "lc-apply-raises",
+                f"LC(loss).apply((r,), sv) raised {res['err']}: {res.get('msg')} on steps {case['steps']}, state {case['terms']}")
+    cur = [[st, a, "1"] for st, a in case["terms"]]
+    for r, p in case["steps"]:
+        rep = chk.lean.ask({"op": "lcapply", "r": r, "p": core.rat(float(Fraction(p))), "sv": cur})
+        if "err" in rep:
+            return ("broken", "lc-apply-model-rejects", f"the model rejects an LC.apply case ({rep['err']})")
+        if not rep["marg"]:
+            return ("broken", "lc-apply-marginal", "model: LC.apply marginal differs from the density-matrix diagonal")
+        cur = merge_contribs(rep["sv"])
+    want = normalised(collect(cur))
+    real = {tuple(st): complex(re, im) for st, re, im in res["out"] if re or im}
+    if want is None:
+        return None
+    want = {k: v for k, v in want.items() if abs(v) > 0}
+    bad = vec_diff(real, want)
+    if res.get("m") != case["m"] + len(case["steps"]):
+        bad = bad or 1.0
+    if bad:
+        od = oracle_lcapply(case)
+        if vec_diff(real, od, 1e-7) or res.get("m") != case["m"] + len(case["steps"]):
+            return ("violation", "lc-apply-differs",
+                    f"LC.apply steps {case['steps']} on {case['terms']}: the result differs by {bad:.3g} from coupling the "
+                    "mode to a fresh vacuum mode with BS.H of transmission 1 - loss")
+        return ("broken", "model-vs-code-lc-apply", f"Lean model and LC.apply disagree by {bad:.3g} but the numpy oracle "
+                                                    "agrees with the implementation")
+    return None
+
+
+def handle_lcapply_batch(chk, cases):
+    for c in cases:
+        chk.branch("lc-apply")
+        if len(c["steps"]) > 1:
+            chk.branch("lc-apply-twice")
+        if len(c["terms"]) > 1:
+            chk.branch("lc-apply-superposition")
+        chk.count("lc_apply_p", c["steps"][0][1])
+    # probe: when the method fails on every one of the first cases (raises or kills the interpreter) there is nothing
+    # to compare; report that and do not restart a dying interpreter for each remaining case
+    results = run_lcapply_batch(cases[:4])
+    if len(cases) > 4 and all("out" not in results.get(c["id"], {}) for c in cases[:4]):
+        chk.count("lc_apply", "skipped-after-probe", len(cases) - 4)
+        cases = cases[:4]
+    else:
+        results.update(run_lcapply_batch(cases[4:]))
+    failures = []
+    for c in cases:
+        res = results.get(c["id"], {"crash": "no answer"})
+        chk.case(("lcapply", c["m"], json.dumps(c["terms"]), json.dumps(c["steps"])),
+                 nontrivial=any(st[c["steps"][0][0]] >= 1 for st, _ in c["terms"]), sample=None)
+        out = judge_lcapply(chk, c, res)
+        if out is not None:
+            failures.append((len(c["steps"]), len(c["terms"]), sum(sum(st) for st, _ in c["terms"]), c["id"], out, c))
+            if out[1] == "lc-apply-raises":
+                chk.count("lc_apply", "raises")
+    for *_, (kind, sig, what), c in sorted(failures, key=lambda f: f[:4]):     # the smallest failing case first
+        chk.fail(kind, sig, what, {"lcapply": c})
+
+
+# ------------------------------------------------------------------------------------------------
+# noisy source in front of a lossy circuit: Processor(noise=NoiseModel(brightness, transmittance)).probs()
+# ------------------------------------------------------------------------------------------------
+SRC_PARAMS = [("1/2", "1"), ("3/4", "1"), ("1", "1/2"), ("3/4", "1/2"), ("7/8", "3/4"), ("1/2", "1/4"), ("1", "1")]
+
+
+def gen_source_case(rng, chk):
+    prog = gen_program(rng, chk, max_m=3, max_lc=3, max_n=3)
+    prog["mode"] = "processor"
+    prog["noise"] = list(rng.choice(SRC_PARAMS))
+    s = [0] * prog["m"]
+    for _ in range(rng.choice([1, 2, 2, 3])):
+        s[rng.randrange(prog["m"])] += 1
+    prog["inputs"] = [s]
+    return prog
+
+
+def observe_source(case):
+    import perceval as pcvl
+    mats = []
+    try:
+        objs = [build_comp(spec) for _, spec in case["comps"]]
+        mats = snapshot_mats(case["comps"], objs)
+        b, t = (float(Fraction(x)) for x in case["noise"])
+        p = pcvl.Processor(case["backend"], case["m"], noise=pcvl.NoiseModel(brightness=b, transmittance=t))
+        for (r0, spec), obj in zip(case["comps"], objs):
+            p.add(r0, obj)
+        p.min_detected_photons_filter(case["filter"])
+        p.with_input(pcvl.BasicState(case["inputs"][0]))
+        src = []
+        for sv, w in p.source_distribution.items():
+            comps = [(tuple(int(x) for x in st), complex(a)) for st, a in sv]
+            if len(comps) != 1 or any(st.has_annotations for st, _ in sv):
+                return {"err": "SourceShape", "msg": f"unexpected source state {sv}", "mats": mats}
+            src.append([float(w), list(comps[0][0])])
+        res = p.probs(precision=0)
+        run = {"input": case["inputs"][0], "via": "Processor(noise).probs", "results": bsd_to_dict(res["results"]),
+               "physical_perf": float(res["physical_perf"]), "logical_perf": float(res["logical_perf"])}
+        return {"run": run, "src": src, "mats": mats}
+    except Exception as e:
+        if is_repo_error(e):
+            return {"err": type(e).__name__, "msg": str(e)[:200], "mats": mats}
+        raise
+
+
+def judge_source(chk, case):
+    obs = observe_source(case)
+    if "err" in obs:
+        return ("violation", "noisy-source-loss-raises",
+                f"Processor with a noisy source and loss channels raised {obs['err']} ({obs.get('msg')})")
+    e = Fraction(case["noise"][0]) * Fraction(case["noise"][1])
+    rep = chk.lean.ask({"op": "source", "e": core.rat(e), "s": case["inputs"][0]})
+    model_src = {}
+    for w, st in rep["src"]:
+        model_src[tuple(st)] = model_src.get(tuple(st), Fraction(0)) + Fraction(w)
+    model_src = {k: v for k, v in model_src.items() if v}
+    real_src = {tuple(st): w for w, st in obs["src"]}
+    if dist_close(real_src, model_src):
+        # the source model is C06's business; here it only selects which mixture the loss model is asked for
+        chk.count("source", "differs-from-emission-model")
+        src = [[core.rat(w), st] for w, st in obs["src"]]
+    else:
+        src = [[core.rat(v), list(k)] for k, v in model_src.items()]
+    req = lean_request(dict(case, inputs=[]), obs["mats"])
+    req.update({"op": "probsmix", "src": src})
+    del req["inputs"]
+    rep = chk.lean.ask(req)
+    if "err" in rep:
+        return ("violation", "accepts-inadmissible-program", f"accepted a program the model rejects ({rep['err']})")
+    exact = {tuple(k): Fraction(v) for k, v in rep["dist"]}
+    probs = compare_run(obs["run"], exact, case["filter"], rep["M"], TOL)
+    if not probs:
+        return None
+    if "shape" in probs:
+        return ("violation", "output-not-on-original-modes", "noisy source + loss: states not on the original modes")
+    # direct oracle: mixture, over the REAL source distribution, of the enlarged lossless circuit's marginals
+    umat = oracle_matrix(case, obs["mats"])
+    od = {}
+    for w, st in obs["src"]:
+        for k, v in oracle_dist(*umat, st).items():
+            od[k] = od.get(k, 0.0) + w * v
+    odf = {k: Fraction(*float(v).as_integer_ratio()) for k, v in od.items()}
+    oprobs = compare_run(obs["run"], odf, case["filter"], rep["M"], 1e-7)
+    if "dist" in oprobs or "perf" in oprobs or "norm" in probs:
+        return ("violation", "noisy-source-loss-distribution-differs",
+                f"Processor(noise brightness={case['noise'][0]}, transmittance={case['noise'][1]}).probs on "
+                f"{case['inputs'][0]} (filter {case['filter']}) differs from the mixture over the source's inputs of the "
+                f"enlarged lossless circuit's distributions ({oprobs or probs})")
+    return ("broken", "model-vs-code-noisy-source", f"Lean model and Processor(noise).probs disagree ({probs}) but the "
+                                                    "numpy oracle agrees with the implementation")
+
+
+def handle_source(chk, case):
+    chk.branch("noisy-source-with-loss")
+    if case["filter"]:
+        chk.branch("noisy-source-with-loss-filter")
+    chk.count("source_noise", "/".join(case["noise"]))
+    res = judge_source(chk, case)
+    chk.case(("source",) + signature(case) + (tuple(case["noise"]), tuple(case["inputs"][0])),
+             nontrivial=case["noise"] != ["1", "1"] and sum(case["inputs"][0]) >= 1, sample=None)
+    if res is not None:
+        kind, sig, what = res
+
+        def fails(c):
+            try:
+                r = judge_source(chk, c)
+            except core.LeanError:
+                raise
+            except Exception:
+                return False
+            return r is not None and r[1] == sig
+        cur = copy.deepcopy(case)
+        cur["comps"] = gens.shrink_list(cur["comps"], lambda cs: bool(cs) and fails(dict(cur, comps=cs)), max_rounds=40)
+        if cur["filter"] and fails(dict(cur, filter=0)):
+            cur["filter"] = 0
+        try:
+            again = judge_source(chk, cur)
+            if again is not None and again[1] == sig:
+                what = again[2]
+        except core.LeanError:
+            raise
+        except Exception:
+            pass
+        chk.fail(kind, sig, what, {"source": cur})
+
+
+# ------------------------------------------------------------------------------------------------
 # DensityMatrix.apply_loss
 # ------------------------------------------------------------------------------------------------
 def gen_dm_case(rng):
@@ -954,6 +1488,8 @@ def gen_dm_case(rng):
                     Fraction(25, 169), Fraction(7, 10)])
     case = {"m": m, "kind": kind, "states": states, "weights": weights, "modes": modes,
             "p": core.rat(p), "as_int": len(modes) == 1 and rng.random() < 0.5}
+    if kind == "sv" and rng.random() < 0.5:      # complex amplitudes: off-diagonal entries with imaginary parts
+        case["phases"] = [rng.randrange(4) for _ in states]
     if rng.random() < 0.3:      # further losses applied to the same DensityMatrix object
         case["then"] = [{"modes": sorted(rng.sample(range(m), rng.randint(1, m))),
                          "p": core.rat(rng.choice([Fraction(0), Fraction(1), Fraction(9, 25), Fraction(1, 2),
@@ -975,8 +1511,9 @@ def dm_observe(case):
         src = sts[0]
     elif case["kind"] == "sv":
         sv = pcvl.StateVector()
-        for s, w in zip(sts, case["weights"]):
-            sv += float(w) * pcvl.StateVector(s)
+        phases = case.get("phases") or [0] * len(sts)
+        for s, w, ph in zip(sts, case["weights"], phases):
+            sv += pcvl.StateVector(s) * (float(w) * (1, 1j, -1, -1j)[ph])
         src = sv
     else:
         tot = sum(case["weights"])
@@ -985,6 +1522,7 @@ def dm_observe(case):
     inv = {i: tuple(int(x) for x in s) for s, i in dm.index.items()}
     d0 = dm.mat.toarray()
     before = {inv[i]: float(d0[i, i].real) for i in inv if d0[i, i] != 0}
+    full0 = {(inv[i], inv[j]): complex(d0[i, j]) for i in inv for j in inv if d0[i, j] != 0}
     p = float(Fraction(case["p"]))
     dm.apply_loss(case["modes"][0] if case["as_int"] else list(case["modes"]), p)
     for modes, q in dm_steps(case)[1:]:
@@ -992,7 +1530,31 @@ def dm_observe(case):
     d1 = dm.mat.toarray()
     after = {inv[i]: float(d1[i, i].real) for i in inv if abs(d1[i, i]) > 0}
     herm = float(np.max(np.abs(d1 - d1.conj().T))) if d1.size else 0.0
-    return before, after, p, herm
+    full1 = {(inv[i], inv[j]): complex(d1[i, j]) for i in inv for j in inv if d1[i, j] != 0}
+    return before, after, p, herm, full0, full1
+
+
+def oracle_dm(full0, steps):
+    """numpy, independent of the binomial formula: couple the mode to a vacuum environment mode with the block
+    [[c, s], [s, -c]] (amplitudes from permanents), trace the environment out"""
+    rho = dict(full0)
+    for modes, q in steps:
+        loss = float(q)
+        c, s = math.sqrt(1 - loss), math.sqrt(loss)
+        blk = np.array([[c, s], [s, -c]], dtype=complex)
+
+        def amp(n, l):
+            a = perm_np(blk[np.ix_([0] * (n - l) + [1] * l, [0] * n)]) if n else 1.0 + 0j
+            return a / math.sqrt(math.factorial(n) * math.factorial(n - l) * math.factorial(l))
+        for md in modes:
+            new = {}
+            for (t, u), v in rho.items():
+                for l in range(min(t[md], u[md]) + 1):
+                    t2 = t[:md] + (t[md] - l,) + t[md + 1:]
+                    u2 = u[:md] + (u[md] - l,) + u[md + 1:]
+                    new[(t2, u2)] = new.get((t2, u2), 0j) + amp(t[md], l) * v * np.conj(amp(u[md], l))
+            rho = new
+    return rho
 
 
 def lc_reference(case, before):
@@ -1020,7 +1582,7 @@ def handle_dm(chk, case):
         chk.branch("dm-several-modes")
     if case.get("then"):
         chk.branch("dm-repeated-loss")
-    before, after, p, herm = dm_observe(case)
+    before, after, p, herm, full0, full1 = dm_observe(case)
     diag = [[list(k), core.rat(v)] for k, v in sorted(before.items())]
     cur = diag
     for modes, q in dm_steps(case):
@@ -1057,6 +1619,34 @@ def handle_dm(chk, case):
         if dist_close(ref, exact):
             chk.fail("violation", "dm-loss-differs-from-lc",
                      "LC simulation and DensityMatrix.apply_loss give different statistics for the same loss",
+                     {"dm": case})
+            return
+    # the whole matrix (off-diagonal entries included): model of  sum_l K_l rho K_l^T  as formal a*sqrt(q) contributions
+    if any(k[0] != k[1] for k in full0):
+        chk.branch("dm-off-diagonal")
+    if any(abs(v.imag) > 0 for v in full0.values()):
+        chk.branch("dm-complex-off-diagonal")
+    cur = [[[list(t), list(u)], [core.rat(v.real), core.rat(v.imag)], "1"] for (t, u), v in sorted(full0.items())]
+    for modes, q in dm_steps(case):
+        for md in modes:
+            rep = chk.lean.ask({"op": "dmfull", "mode": md, "p": core.rat(float(q)), "rho": cur})
+            if "err" in rep:
+                chk.fail("broken", "dm-model-rejects", f"the model rejects a density-matrix case ({rep['err']})",
+                         {"dm": case})
+                return
+            cur = merge_contribs(rep["rho"])
+    want = collect(cur, key=lambda k: (tuple(k[0]), tuple(k[1])))
+    bad = vec_diff(full1, want)
+    if bad or herm > 1e-9:
+        od = oracle_dm(full0, dm_steps(case))
+        if vec_diff(full1, od, 1e-7) or herm > 1e-7:
+            chk.fail("violation", "dm-loss-differs-from-bs-dilation",
+                     f"DensityMatrix.apply_loss {[(m_, float(q_)) for m_, q_ in dm_steps(case)]}: the matrix differs by "
+                     f"{max(bad, vec_diff(full1, od, 1e-7)):.3g} (hermiticity defect {herm:.3g}) from coupling each mode to a "
+                     "vacuum environment mode with BS.H of transmission 1 - p and tracing the environment out",
+                     {"dm": case})
+        else:
+            chk.fail("broken", "dm-model-vs-code-matrix", f"model and DensityMatrix.apply_loss matrices disagree by {bad:.3g}",
                      {"dm": case})
 
 
@@ -1102,6 +1692,23 @@ def handle_thinning(chk):
                          {"n": n, "c": [a, h]})
 
 
+def handle_dilation(chk):
+    """model self-check of theorem `kraus_eq_bs_dilation` on the wire: Kraus map against the beam-splitter dilation
+    (exact rational p = s^2, 1 - p = c^2), contribution values compared after the one floating-point square root"""
+    rho = [[[[2, 1], [2, 1]], ["1/6", "0"], "1"], [[[2, 1], [0, 3]], ["1/6", "1/6"], "1"],
+           [[[0, 3], [2, 1]], ["1/6", "-1/6"], "1"], [[[0, 3], [0, 3]], ["1/3", "0"], "1"],
+           [[[1, 0], [1, 0]], ["1/2", "0"], "1"], [[[3, 0], [1, 2]], ["0", "1/7"], "1"]]
+    for a, b, h in [(3, 4, 5), (1, 0, 1), (0, 1, 1), (12, 5, 13), (8, 15, 17)]:
+        for mode in (0, 1):
+            rep = chk.lean.ask({"op": "dmfull", "mode": mode, "p": core.rat(Fraction(b * b, h * h)),
+                                "cs": [core.rat(Fraction(a, h)), core.rat(Fraction(b, h))], "rho": rho})
+            chk.case(("dilation", a, h, mode), nontrivial=False)
+            key = lambda k: (tuple(k[0]), tuple(k[1]))   # noqa: E731
+            if "err" in rep or vec_diff(collect(rep["rho"], key), collect(rep["dil"], key), 1e-12):
+                chk.fail("broken", "kraus-vs-dilation", "model: Kraus map and beam-splitter dilation differ",
+                         {"dilation": [a, b, h, mode]})
+
+
 # ------------------------------------------------------------------------------------------------
 def load_corpus():
     out = []
@@ -1138,14 +1745,26 @@ def run(chk: core.Check):
                 "values at the time of the query, a failing one also with a fresh object; distinct = (program, steps), "
                 "non-trivial = a value or the list changes between two queries. "
                 "DensityMatrix.apply_loss cases (30% with 1-2 further losses on the same object): distinct (m, source "
-                "kind, modes, p, states, further losses), non-trivial = a lossy mode is populated and 0 < p < 1")
+                "kind, modes, p, states, further losses), non-trivial = a lossy mode is populated and 0 < p < 1; the "
+                "whole complex matrix is compared entry by entry (superpositions with phases 1, i, -1, -i). "
+                "evolve cases (quick 70 / thorough 700): list programs of 1-3 modes, 1-3 channels (40% cut down to one "
+                "channel), 1-2 inputs each a Fock state or a 2-term superposition with coefficients from {1, i, -1, 2, "
+                "1+i, 1/2, -3i/2} and 0-3 photons per term; every amplitude of SimulatorFactory.build(list).evolve "
+                "against the model of _postprocess_sv_impl (normalised), with one channel also |evolve|^2 against the "
+                "real probs. Noisy-source cases (60 / 600): Processor(noise=NoiseModel(brightness, transmittance)) from 7 "
+                "dyadic settings with LC programs, 1-3 expected photons, filter 0/1/2: source distribution against the "
+                "emission model, results and physical_perf against the mixture. LC.apply cases (80 / 800), in a child "
+                "process: 1-3 modes, 1-3 term superpositions, one or two successive LC(loss).apply((r,), sv)")
     chk.assumptions = [
         "leaf matrices are taken from each leaf's own compute_unitary() (their correctness is C14)",
         "the strong-simulation backends return the Fock-space probabilities of the matrix they are given (C02)",
-        "perfect source, Fock-state inputs, no heralds/post-selection (conditioning is C04, noisy sources C06)",
-        "normalisation of the enlarged distribution (sum of |perm|^2/... = 1 for a unitary matrix) is not proved in "
-        "Lean; the exact mass of the model's enlarged distribution is computed on every case and checked to be 1 "
-        "up to the rounding of the float leaf matrices (1e-12)",
+        "Fock-state inputs or the emission-only noisy source (brightness, transmittance); no heralds/post-selection "
+        "(conditioning is C04); the source distribution itself is C06's (it is read from the real Processor and "
+        "compared with the emission model), annotated photons (g2, indistinguishability) with loss are not modelled",
+        "evolve is compared with the code as it is (amplitudes of different loss patterns added), not with the physical "
+        "mixed state; the containers StateVector/BSDistribution (normalisation on iteration) are exqalibur's",
+        "square roots: the model returns exact pairs (a, q) = a*sqrt(q); the one floating-point sqrt per contribution is "
+        "taken in the harness",
     ]
     chk.required_branches = ["perm-branch", "adjacent-branch", "perm-after-earlier-channel", "two-channels-same-mode",
                              "loss-0", "loss-1", "via-processor", "via-list", "photon-filter", "rejected",
@@ -1155,7 +1774,11 @@ def run(chk: core.Check):
                              "session-phase-parameter-changed", "session-shared-loss-parameter",
                              "session-processor-add-after-query", "session-list-edited-in-place",
                              "session-filter-changed", "session-input-changed",
-                             "session-out-of-range-loss-rejected", "session-repeated-query"]
+                             "session-out-of-range-loss-rejected", "session-repeated-query",
+                             "dm-off-diagonal", "dm-complex-off-diagonal",
+                             "evolve-single-pattern", "evolve-several-patterns", "evolve-superposition",
+                             "lc-apply", "lc-apply-twice", "lc-apply-superposition",
+                             "noisy-source-with-loss", "noisy-source-with-loss-filter"]
     chk.lean = core.LeanDriver("C07")
     rng = chk.rng
     for item in load_corpus():
@@ -1175,6 +1798,12 @@ def run(chk: core.Check):
     for i in range(chk.pick(120, 1200)):
         case = gen_dm_case(rng)
         guarded(chk, "dm-apply-loss", {"dm": case}, handle_dm, chk, case)
+    handle_dilation(chk)
+    for i in range(chk.pick(70, 700)):
+        handle_evolve(chk, gen_evolve_case(rng, chk))
+    for i in range(chk.pick(60, 600)):
+        handle_source(chk, gen_source_case(rng, chk))
+    handle_lcapply_batch(chk, [gen_lcapply_case(rng, k) for k in range(chk.pick(80, 800))])
 
 
 def guarded(chk, what, replay, fn, *args):
@@ -1202,6 +1831,14 @@ def replay_item(chk, item):
         guarded(chk, "dm-apply-loss", item, handle_dm, chk, item["dm"])
     elif "layers" in item:
         guarded(chk, "layer-choice", item, handle_layers, chk)
+    elif "evolve" in item:
+        handle_evolve(chk, item["evolve"])
+    elif "source" in item:
+        handle_source(chk, item["source"])
+    elif "lcapply" in item:
+        handle_lcapply_batch(chk, [item["lcapply"]])
+    elif "dilation" in item:
+        handle_dilation(chk)
     else:
         handle_thinning(chk)
 
